@@ -22,7 +22,8 @@ RULE = ("every registered dimension, prefix and unit (full sweep) and sampled co
         "distinct = (codec, object) resp. (codec, unit shape class, magnitude type); non-trivial = object is not "
         "Number / IdentityPrefix / One"
         " Also: process-wide json install(), decoding options on the installed route, one document validated twice, quantities with a prefix of the user's own, dump -> Dimension.define -> load, and one shard with the integer-string limit disabled."
-        " Codecs include documents edited by the caller before re-encoding and decoders with parse_float options; units whose decimal and binary prefixes cancelled are included.")
+        " Codecs include documents edited by the caller before re-encoding and decoders with parse_float options; units whose decimal and binary prefixes cancelled are included."
+        " Decimal and float inf/-inf/nan magnitudes through every codec (type and value, NaN-ness for NaNs).")
 ASSUMPTIONS = [
     "pickle protocols 0 and 1 are out of scope: CPython refuses them for __slots__ classes without __getstate__",
     "quantities are compared by magnitude type + value and by the unit's identity (pickle/copy) or oracle size and "
